@@ -861,6 +861,9 @@ func verifStubExecTransient(conn *sqlite.Conn, query string, resultFn func(stmt 
 
 //verif:stub crawshaw.io/sqlite/sqlitex.Exec
 func verifStubExec(conn *sqlite.Conn, query string, resultFn func(stmt *sqlite.Stmt) error, args ...interface{}) error {
+	if handled, err := c05Exec(query, resultFn, args); handled {
+		return err
+	}
 	w := vw
 	switch {
 	case strings.HasPrefix(query, "SELECT timestamp, leaf_index FROM cache256"):
